@@ -31,7 +31,7 @@ PROPS = {
     claim="Proof that the source multi-index produced by transpose/moveaxis/swapaxes/tile/repeat(non-repeated axes)/roll indexers lies inside the source shape for every in-shape destination index; that pad maps a padded coordinate to a source index inside the source shape exactly when it is not in the padding (index level, every axis and zone) and that view::pad then reads that source element, or the pad value without touching the source (ranks 1..3); and that static_vector never holds more than its capacity (inductive invariant over every mutator); buffer-position bounds for run-time shapes (non-linear) and slice-based views are not decided.",
     note=E1_NOTE,
     technique=E1_TECH,
-    e1=[dict(tu="c03_rearrange.cpp"), dict(tu="c03b_dynamic.cpp"), dict(tu="c04_select.cpp"), dict(tu="c19_utl.cpp"), dict(tu="c02_capacity.cpp"), dict(tu="c03c_reshape.cpp"), dict(tu="c06b_broadcast_to.cpp"), dict(tu="c15b_pad_matmul.cpp"), dict(tu="c02c_padview.cpp"), dict(tu="c04c_take.cpp"), dict(tu="c04f_diagonal.cpp")],
+    e1=[dict(tu="c03_rearrange.cpp"), dict(tu="c03b_dynamic.cpp"), dict(tu="c04_select.cpp"), dict(tu="c19_utl.cpp"), dict(tu="c02_capacity.cpp"), dict(tu="c03c_reshape.cpp"), dict(tu="c06b_broadcast_to.cpp"), dict(tu="c15b_pad_matmul.cpp"), dict(tu="c02c_padview.cpp"), dict(tu="c04c_take.cpp"), dict(tu="c04f_diagonal.cpp"), dict(tu="c12_enum.cpp")],
     e2=[dict(rule="R-SIMD"), dict(rule="R-AXISNORM.simd")],
     rule=E1_RULE,
     explanation="in-shape obligations are stated through the view's own indexer (indexing_t / decorator_t on the path); capacity obligations are an inductive class invariant (assume on entry, prove on exit).",
@@ -181,9 +181,10 @@ PROPS["C13"] = dict(
 
 PROPS["C12"] = dict(
     level="other",
-    claim="In every instantiated SIMD evaluator path with a linear index (unary, same-shape binary, full reduction; x86 AVX and SSE, float and double): each packed load/store at &p[i] is reachable only through the true edge of (i + lanes) <= size with lanes = register bits / element bits and size the element count, each scalar tail store only through i < size; reduction accumulators are seeded from the op's identity and all identity sources of one instantiation agree; the index functions of the axis-reduction path compare positions with their raw axis parameter, and every call that reaches them passes a visibly normalised axis (R-AXISNORM.caller). Enumerator-driven paths (broadcast, outer, axis reductions), bit-identity of results and SIMDe/vector-extension back-ends are not decided.",
-    note=E2_NOTE + " Dominance is computed on clang's CFG of the instantiated evaluator members (if-constexpr resolved).",
-    technique="static: CFG dominance rule over instantiated evaluator code (custom libTooling extractor), sibling agreement of identity sources",
+    claim="In every instantiated SIMD evaluator path with a linear index (unary, same-shape binary, full reduction; x86 AVX and SSE, float and double): each packed load/store at &p[i] is reachable only through the true edge of (i + lanes) <= size with lanes = register bits / element bits and size the element count, each scalar tail store only through i < size; reduction accumulators are seeded from the op's identity and all identity sources of one instantiation agree; the index functions of the axis-reduction path compare positions with their raw axis parameter, and every call that reaches them passes a visibly normalised axis (R-AXISNORM.caller). The enumerator of the 2-d broadcast binary path is enumerated exhaustively by E1 for small shapes (output (R,C) with R in 1..3 and C crossing pack boundaries, every operand shape that broadcasts to it, pack width 4; width 8 in the thorough tier): every step stays inside output and operands, every output position is produced exactly once, and each lane is paired with NumPy's broadcast partner. The outer and axis-reduction enumerators, bit-identity of results and SIMDe/vector-extension back-ends are not decided.",
+    note=E2_NOTE + " Dominance is computed on clang's CFG of the instantiated evaluator members (if-constexpr resolved). " + E1_NOTE,
+    technique="static: CFG dominance rule over instantiated evaluator code (custom libTooling extractor), sibling agreement of identity sources and of the float/double back-end tables; " + E1_TECH + " (exhaustive small-shape enumeration of the broadcast enumerator)",
+    e1=[dict(tu="c12_enum.cpp")],
     e2=[dict(rule="R-SIMD"), dict(rule="R-AXISNORM.simd"), dict(rule="R-SIMDSIB")],
     rule="E2: one instance per packed access / scalar tail store / accumulator seed in each instantiated evaluator member; distinct by (instantiation, source line)",
     explanation="Never reading or writing outside the buffers is, for the linear paths, exactly the loop-guard dominance property; seeding with identity is necessary for reductions other than add.",
